@@ -127,6 +127,9 @@ static void gen_c12(Plan& p, Rng& r) {
     if (p.npre > 1 && r.below(2)) p.files.push_back("d1/f0:" + std::to_string(r.below(300)));
     int n = 5 + (int)r.below(36);
     for (int i = 0; i < n; i++) {
+        if (i >= 2 && r.below(12) == 0) {   // concurrent phase: 2-3 tasks read/write/seek their own files at the same time
+            Op o = mkop("par_rw", r); o.n["tasks"] = 2 + r.below(2); o.n["n"] = 3 + r.below(8); o.n["pseed"] = (int64_t)(r.next() & 0xFFFFFF); o.n["abimask"] = r.below(8); o.n["gen"] = i; p.ops.push_back(o); continue;
+        }
         uint32_t k = r.below(100);
         if (i < 2 || k < 18) {
             Op o = mkop("path_open", r); o.n["dirfd"] = 3 + (int64_t)r.below((uint32_t)p.npre); o.path = pick(r, names); o.n["haspath"] = 1;
@@ -217,6 +220,9 @@ static void gen_c14(Plan& p, Rng& r) {
     int n = 5 + (int)r.below(30);
     size_t pmax = 4096;
     for (int i = 0; i < n; i++) {
+        if (i >= 1 && r.below(12) == 0) {   // concurrent phase: 2-3 tasks create/rename/link/remove their own names in one directory at the same time
+            Op o = mkop("par_path", r); o.n["tasks"] = 2 + r.below(2); o.n["n"] = 3 + r.below(10); o.n["pseed"] = (int64_t)(r.next() & 0xFFFFFF); o.n["abimask"] = r.below(8); o.n["gen"] = i; p.ops.push_back(o); continue;
+        }
         uint32_t k = r.below(100);
         auto gpath = [&](Op& o) {
             uint32_t c = r.below(20);
@@ -338,7 +344,7 @@ static int run_plan(uint64_t idx, const Plan& p) {
     bool first = true;
     for (int k = 0; k < F_KIND_COUNT; k++) { uint64_t n = S->st.faults[k] + S->fault_kind[k]; if (n) { printf("%s%s:%llu", first ? "" : ",", fault_names[k], (unsigned long long)n); first = false; } }
     if (first) printf("-");
-    printf(" probes=host_calls:%llu,tree_compares:%llu,extra_guest_writes:%llu,faults_fired:%llu,via_exit:%d replay=%s", (unsigned long long)S->host_calls, (unsigned long long)S->tree_compares,
+    printf(" probes=concurrent_calls:%llu,host_calls:%llu,tree_compares:%llu,extra_guest_writes:%llu,faults_fired:%llu,via_exit:%d replay=%s", (unsigned long long)S->par_calls, (unsigned long long)S->host_calls, (unsigned long long)S->tree_compares,
            (unsigned long long)S->extra_guest_writes, (unsigned long long)S->faults_fired, S->via_exit, rp.c_str());
     if (!res.sigs.empty()) printf(" detail=%s", det.substr(0, 2500).c_str());
     printf("\n");
